@@ -405,9 +405,37 @@ def r187(ctx, fx):
         ctx.finding(rid, key, "a test element is built without the segment it is assembled into: the test runner cannot tell which bank it belongs to", et.where)
 
 
+def r188(ctx, fx):
+    rid = ctx.rule("R18.8", "an assertion is evaluated with the symbols as they are *at the assertion*: what emit_token stores with an `.assert` / `.trace` comes from a "
+                   "function that copies the symbol table on every path (`<SymbolTable as Clone>::clone` — must-call with wrapper summaries). A copy that is shared "
+                   "between assertions `while nothing changed` is as good as its idea of change: `.var` is re-assigned in place")
+    et = fx.fn("mos_core::codegen::CodegenContext::emit_token")
+    if et is None:
+        ctx.fail_closed(rid, "emit_token not found")
+        return
+    mc = lib.MustCall(fx, lambda p: "SymbolTable" in p and lib.norm(p).endswith("Clone>::clone") or ("SymbolTable" in p and p.endswith("::clone")), depth=3)
+    n = 0
+    for bi, t in lib.calls(et):
+        p, fr = lib.callee(t)
+        if not p or not lib.norm(p).rstrip(">").endswith("snapshot"):
+            continue
+        g = fx.fns.get(fr.get("rid") or fr.get("id"))
+        n += 1
+        key = "emit_token|snapshot#%d" % n
+        ok = g is not None and g.blocks and mc.holds(g)
+        ctx.inst(rid, key, sample={"line": t.get("line"), "through": p, "copies_the_symbol_table_on_every_path": bool(ok)})
+        if not ok:
+            ctx.finding(rid, key, "the snapshot stored with an assertion comes from `%s`, which does not copy the symbol table on every path: two assertions can share one "
+                        "copy, and the second one is evaluated with the symbols of the first — a `.var` given another value in between still has the old one" % (
+                            lib.norm(p).rsplit("::", 2)[-2] + "::" + lib.norm(p).rsplit("::", 1)[-1]), "%s:%s" % (et.file, t.get("line")))
+    if n < 2:
+        ctx.fail_closed(rid, "fewer than 2 snapshots taken in emit_token (%d)" % n)
+
+
 def run(ctx):
     fx = ctx.facts
     r187(ctx, fx)
+    r188(ctx, fx)
     r185(ctx, fx)
     r186(ctx, fx)
     r181(ctx, fx)
